@@ -795,63 +795,63 @@ _HELP = ('MoveGen_addMovesByMask', 'MoveGen_addPawnDoubleMovesByMask', 'MoveGen_
          'BitBoard_extractSquare', 'BitBoard_firstSquare', 'BitBoard_squaresBetween')
 for _sfx in ('_w', '_b'):
     GROUPS.append(Group('checkEvasions_pawns' + _sfx, 'h_evasion_pawns' + _sfx, enforce='MoveGen_checkEvasions_pawns' + _sfx,
-                        replace=('MoveGen_addPawnDoubleMovesByMask', 'MoveGen_addPawnMovesByMask_w', 'MoveGen_addPawnMovesByMask_b'), min_props=10, timeout=3000))
+                        replace=('MoveGen_addPawnDoubleMovesByMask', 'MoveGen_addPawnMovesByMask_w', 'MoveGen_addPawnMovesByMask_b'), min_props=10, timeout=7200))
 for _sfx in ('_w', '_b'):
     _pf = 'MoveGen_pseudoLegalMoves_'
     GROUPS.append(Group('pseudoLegalMoves_sliders' + _sfx, 'h_pl_sliders' + _sfx, enforce=_pf + 'sliders' + _sfx, replace=_ATT + ('MoveGen_addMovesByMask', 'BitBoard_extractSquare'),
-                        loop_contracts=True, min_props=10, expect_loop_props=3, timeout=3000))
-    GROUPS.append(Group('pseudoLegalMoves_king' + _sfx, 'h_pl_king' + _sfx, enforce=_pf + 'king' + _sfx, replace=_ATT + ('MoveGen_addMovesByMask', 'MoveList_addMove', 'MoveGen_sqAttacked2'), min_props=10, timeout=3000))
+                        loop_contracts=True, min_props=10, expect_loop_props=3, timeout=7200))
+    GROUPS.append(Group('pseudoLegalMoves_king' + _sfx, 'h_pl_king' + _sfx, enforce=_pf + 'king' + _sfx, replace=_ATT + ('MoveGen_addMovesByMask', 'MoveList_addMove', 'MoveGen_sqAttacked2'), min_props=10, timeout=7200))
     GROUPS.append(Group('pseudoLegalMoves_knights' + _sfx, 'h_pl_knights' + _sfx, enforce=_pf + 'knights' + _sfx, replace=_ATT + ('MoveGen_addMovesByMask', 'BitBoard_extractSquare'),
-                        loop_contracts=True, min_props=10, expect_loop_props=1, timeout=3000))
+                        loop_contracts=True, min_props=10, expect_loop_props=1, timeout=7200))
     GROUPS.append(Group('pseudoLegalMoves_pawns' + _sfx, 'h_pl_pawns' + _sfx, enforce=_pf + 'pawns' + _sfx,
-                        replace=('MoveGen_addPawnDoubleMovesByMask', 'MoveGen_addPawnMovesByMask_w', 'MoveGen_addPawnMovesByMask_b'), min_props=10, timeout=3000))
+                        replace=('MoveGen_addPawnDoubleMovesByMask', 'MoveGen_addPawnMovesByMask_w', 'MoveGen_addPawnMovesByMask_b'), min_props=10, timeout=7200))
     GROUPS.append(Group('pseudoLegalMoves_tiled' + _sfx, 'h_pl_tiled' + _sfx, enforce=_pf + 'tiled' + _sfx, defines=('COMPOSE_UF=1',),
-                        replace=('Position_occupiedBB',) + tuple(_pf + x + _sfx for x in ('sliders', 'king', 'knights', 'pawns')), min_props=5, timeout=3000,
+                        replace=('Position_occupiedBB',) + tuple(_pf + x + _sfx for x in ('sliders', 'king', 'knights', 'pawns')), min_props=5, timeout=7200,
                         note='composition of the four fragment contracts; spec functions uninterpreted (COMPOSE_UF)'))
 for _sfx in ('_w', '_b'):
     _pf = 'MoveGen_pseudoLegalCaptures_'
     GROUPS.append(Group('pseudoLegalCaptures_pieces' + _sfx, 'h_pc_pieces' + _sfx, enforce=_pf + 'pieces' + _sfx, replace=_ATT + ('MoveGen_addMovesByMask', 'BitBoard_extractSquare'),
-                        loop_contracts=True, min_props=10, expect_loop_props=4, timeout=3000))
+                        loop_contracts=True, min_props=10, expect_loop_props=4, timeout=7200))
     GROUPS.append(Group('pseudoLegalCaptures_kingpawns' + _sfx, 'h_pc_kingpawns' + _sfx, enforce=_pf + 'kingpawns' + _sfx,
-                        replace=_ATT + ('MoveGen_addMovesByMask', 'MoveGen_addPawnDoubleMovesByMask', 'MoveGen_addPawnMovesByMask_w', 'MoveGen_addPawnMovesByMask_b'), min_props=10, timeout=3000))
+                        replace=_ATT + ('MoveGen_addMovesByMask', 'MoveGen_addPawnDoubleMovesByMask', 'MoveGen_addPawnMovesByMask_w', 'MoveGen_addPawnMovesByMask_b'), min_props=10, timeout=7200))
     GROUPS.append(Group('pseudoLegalCaptures_tiled' + _sfx, 'h_pc_tiled' + _sfx, enforce=_pf + 'tiled' + _sfx, defines=('COMPOSE_UF=1',),
-                        replace=('Position_occupiedBB', _pf + 'pieces' + _sfx, _pf + 'kingpawns' + _sfx), min_props=5, timeout=3000,
+                        replace=('Position_occupiedBB', _pf + 'pieces' + _sfx, _pf + 'kingpawns' + _sfx), min_props=5, timeout=7200,
                         note='composition of the two fragment contracts; spec functions uninterpreted (COMPOSE_UF)'))
 GROUPS.append(Group('removeIllegal_head', 'h_ri_head', enforce='MoveGen_removeIllegal_head', replace=_ATT + ('MoveGen_inCheck', 'Position_occupiedBB', 'BitBoard_firstSquare'), min_props=5, timeout=1800))
 for _n in ('ic', 'nic'):
-    GROUPS.append(Group('removeIllegal_verdict_' + _n, 'h_ri_' + _n, enforce='MoveGen_removeIllegal_verdict_' + _n, min_props=5, timeout=7200, tier='thorough',
+    GROUPS.append(Group('removeIllegal_verdict_' + _n, 'h_ri_' + _n, enforce='MoveGen_removeIllegal_verdict_' + _n, min_props=5, timeout=14400, tier='thorough',
                         cases=('case', [('CASE_RI=%d' % pt,) for pt in range(6)])))
 for _sfx in ('_w', '_b'):
     _pf = 'MoveGen_capturesAndChecks_'
     _PAWNH = ('MoveGen_addPawnDoubleMovesByMask', 'MoveGen_addPawnMovesByMask_w', 'MoveGen_addPawnMovesByMask_b')
-    GROUPS.append(Group('capturesAndChecks_head' + _sfx, 'h_cc_head' + _sfx, enforce=_pf + 'head' + _sfx, replace=_ATT + ('BitBoard_firstSquare',), min_props=5, timeout=3000))
+    GROUPS.append(Group('capturesAndChecks_head' + _sfx, 'h_cc_head' + _sfx, enforce=_pf + 'head' + _sfx, replace=_ATT + ('BitBoard_firstSquare',), min_props=5, timeout=7200))
     GROUPS.append(Group('capturesAndChecks_sliders' + _sfx, 'h_cc_sliders' + _sfx, enforce=_pf + 'sliders' + _sfx, replace=_ATT + ('MoveGen_addMovesByMask', 'BitBoard_extractSquare'),
-                        loop_contracts=True, min_props=10, expect_loop_props=3, timeout=3000))
-    GROUPS.append(Group('capturesAndChecks_king' + _sfx, 'h_cc_king' + _sfx, enforce=_pf + 'king' + _sfx, replace=_ATT + ('MoveGen_addMovesByMask', 'MoveList_addMove', 'MoveGen_sqAttacked2', 'BitBoard_firstSquare'), min_props=10, timeout=3000))
+                        loop_contracts=True, min_props=10, expect_loop_props=3, timeout=7200))
+    GROUPS.append(Group('capturesAndChecks_king' + _sfx, 'h_cc_king' + _sfx, enforce=_pf + 'king' + _sfx, replace=_ATT + ('MoveGen_addMovesByMask', 'MoveList_addMove', 'MoveGen_sqAttacked2', 'BitBoard_firstSquare'), min_props=10, timeout=7200))
     GROUPS.append(Group('capturesAndChecks_knights' + _sfx, 'h_cc_knights' + _sfx, enforce=_pf + 'knights' + _sfx, replace=_ATT + ('MoveGen_addMovesByMask', 'BitBoard_extractSquare'),
-                        loop_contracts=True, min_props=10, expect_loop_props=1, timeout=3000))
-    GROUPS.append(Group('capturesAndChecks_pawns' + _sfx, 'h_cc_pawns' + _sfx, enforce=_pf + 'pawns' + _sfx, replace=_ATT + _PAWNH, min_props=10, timeout=3000))
+                        loop_contracts=True, min_props=10, expect_loop_props=1, timeout=7200))
+    GROUPS.append(Group('capturesAndChecks_pawns' + _sfx, 'h_cc_pawns' + _sfx, enforce=_pf + 'pawns' + _sfx, replace=_ATT + _PAWNH, min_props=10, timeout=7200))
     GROUPS.append(Group('capturesAndChecks_tiled' + _sfx, 'h_cc_tiled' + _sfx, enforce=_pf + 'tiled' + _sfx, defines=('COMPOSE_UF=1',),
-                        replace=('Position_occupiedBB',) + tuple(_pf + x + _sfx for x in ('head', 'sliders', 'king', 'knights', 'pawns')), min_props=5, timeout=3000,
+                        replace=('Position_occupiedBB',) + tuple(_pf + x + _sfx for x in ('head', 'sliders', 'king', 'knights', 'pawns')), min_props=5, timeout=7200,
                         note='composition of the five fragment contracts; spec functions uninterpreted (COMPOSE_UF)'))
 GROUPS.append(Group('lemma_pl_own', 'h_lemma_pl_own', min_props=1))
 GROUPS.append(Group('occupiedBB', 'h_occupiedBB', enforce='Position_occupiedBB', min_props=2))
 for _sfx in ('_w', '_b'):
     GROUPS.append(Group('checkEvasions_head' + _sfx, 'h_evasion_head' + _sfx, enforce='MoveGen_checkEvasions_head' + _sfx,
-                        replace=_ATT + ('BitBoard_firstSquare', 'BitBoard_squaresBetween'), min_props=10, timeout=3000))
+                        replace=_ATT + ('BitBoard_firstSquare', 'BitBoard_squaresBetween'), min_props=10, timeout=7200))
     GROUPS.append(Group('checkEvasions_pieces' + _sfx, 'h_evasion_pieces' + _sfx, enforce='MoveGen_checkEvasions_pieces' + _sfx, tier='thorough',
-                        replace=_ATT + ('MoveGen_addMovesByMask', 'BitBoard_extractSquare'), loop_contracts=True, min_props=10, expect_loop_props=4, timeout=3000))
+                        replace=_ATT + ('MoveGen_addMovesByMask', 'BitBoard_extractSquare'), loop_contracts=True, min_props=10, expect_loop_props=4, timeout=10800))
     # (a 6-way case split of the piece sections on the kind of the moving piece was tried: the queen case alone takes longer than the unsplit proof)
     GROUPS.append(Group('checkEvasions_tiled' + _sfx, 'h_evasion_tiled' + _sfx, enforce='MoveGen_checkEvasions_tiled' + _sfx, defines=('COMPOSE_UF=1',),
-                        replace=('Position_occupiedBB', 'MoveGen_checkEvasions_head' + _sfx, 'MoveGen_checkEvasions_pieces' + _sfx, 'MoveGen_checkEvasions_pawns' + _sfx), min_props=5, timeout=3000,
+                        replace=('Position_occupiedBB', 'MoveGen_checkEvasions_head' + _sfx, 'MoveGen_checkEvasions_pieces' + _sfx, 'MoveGen_checkEvasions_pawns' + _sfx), min_props=5, timeout=7200,
                         note='composition of the three fragment contracts; spec functions uninterpreted (COMPOSE_UF)'))
 for _sfx in ('_w', '_b'):
     GROUPS.append(Group('checkEvasions' + _sfx, 'h_checkEvasions' + _sfx, enforce='MoveGen_checkEvasions' + _sfx, replace=_ATT + _HELP, loop_contracts=True,
-                        min_props=20, expect_loop_props=4, timeout=3000))
-GROUPS.append(Group('givesCheck', 'h_givesCheck', enforce='MoveGen_givesCheck', replace=('BitBoard_getDirection', 'BitBoard_firstSquare'), min_props=10, timeout=3000,
+                        min_props=20, expect_loop_props=4, timeout=7200))
+GROUPS.append(Group('givesCheck', 'h_givesCheck', enforce='MoveGen_givesCheck', replace=('BitBoard_getDirection', 'BitBoard_firstSquare'), min_props=10, timeout=14400,
                     unwindset={'MoveGen_nextPiece': 9, 'MoveGen_nextPieceSafe': 9}, cases=('case', [('CASE_GC=%d' % pt,) for pt in range(6)]), tier='thorough'))
 GROUPS.append(Group('isLegal', 'h_isLegal', enforce='MoveGen_isLegal',
-                    replace=_ATT + ('MoveGen_inCheck', 'MoveGen_sqAttacked3', 'BitBoard_getDirection', 'BitBoard_firstSquare'), min_props=10, timeout=3000,
+                    replace=_ATT + ('MoveGen_inCheck', 'MoveGen_sqAttacked3', 'BitBoard_getDirection', 'BitBoard_firstSquare'), min_props=10, timeout=7200,
                     cases=('case', [('CASE_IC=%d' % ic, 'CASE_PT=%d' % pt) for ic in (0, 1) for pt in range(6)])))
 # groups that are part of the C01 claim (the others are built but did not close yet: run them with --only)
 CLAIMED = ['sqAttacked_w', 'sqAttacked_b', 'sqAttacked3', 'sqAttacked2', 'inCheck', 'addMovesByMask', 'addPawnDoubleMovesByMask', 'addPawnMovesByMask_w', 'addPawnMovesByMask_b',
